@@ -57,7 +57,9 @@ RULE_ADDED = (
               ' '
               'Round 15: lines in which an object repeats a member name (top level, message / a'
               "uth, nested); every command once, well-formed, on the shard's platform and in bo"
-              'th modes. ')
+              'th modes. '
+              ' '
+              'Round 16: blocks and brothers that are RLP strings of 16..21 bytes. ')
 RULE = RULE + " " + RULE_ADDED.strip()
 ASSUMPTIONS = [
     "simulated device keeps to its protocol (firmware-like chunking, well-formed answers)",
@@ -926,6 +928,8 @@ def manager_child(argv):
     if slow:
         # (every exchange takes that many real seconds: a slow device)
         bus.read_latency = float(slow)
+    if os.environ.get("PV_APDU_LOG"):
+        bus.nested_log = os.environ["PV_APDU_LOG"]
     lp.HSM2ProtocolLedger.OPEN_APP_WAIT = 0
     Platform.set(Platform.LEDGER)
     # (the parent kills this process when it is done with it: the directory is the
